@@ -70,6 +70,38 @@ def delta():
     return tuple(new)
 
 
+def dump_child():
+    """For impl() functions that run pybtex in a forked child of the worker (C18): the child calls this right before
+    os._exit; the lines it saw for the first time go to a per-process file that `collect_children` reads."""
+    d = os.environ.get('VERIF_LINECOV_DIR')
+    if not (_active and d):
+        return
+    new = _hits - _reported
+    if not new:
+        return
+    try:
+        with open(os.path.join(d, '%d.txt' % os.getpid()), 'a', encoding='utf-8') as f:
+            f.write(''.join('%s\t%d\n' % fl for fl in new))
+    except OSError:
+        pass
+
+
+def collect_children():
+    d = os.environ.get('VERIF_LINECOV_DIR')
+    out = set()
+    if not d or not os.path.isdir(d):
+        return out
+    for name in os.listdir(d):
+        try:
+            for line in open(os.path.join(d, name), encoding='utf-8'):
+                f, _, ln = line.rstrip('\n').rpartition('\t')
+                if f:
+                    out.add((f, int(ln)))
+        except (OSError, ValueError):
+            pass
+    return out
+
+
 # ---------------------------------------------------------------------------------------------------------------------
 
 def _executable_lines(path):
